@@ -88,7 +88,16 @@ fn judge(ctx: &mut Ctx, what: &str, r: &Req, rep: &Reply) -> Option<Measure> {
     }
 }
 
+/// confirmed hangs in this run: after a few, the rest of the hostile workload is skipped (every
+/// further hang would cost minutes, and the verdict is already decided)
+static HANGS: std::sync::atomic::AtomicU32 = std::sync::atomic::AtomicU32::new(0);
+const MAX_HANGS: u32 = 3;
+
 fn run_batch(ctx: &mut Ctx, what: &str, reqs: &[Req], timeout_s: u64) -> Vec<Option<Measure>> {
+    if HANGS.load(std::sync::atomic::Ordering::Relaxed) >= MAX_HANGS {
+        ctx.add("requests-skipped-after-confirmed-hangs", reqs.len() as u64);
+        return reqs.iter().map(|_| None).collect();
+    }
     let replies = hostile::run_requests(&exe(), stack_bytes(), reqs, timeout_s);
     // a time-out is retried once, alone, with a doubled budget, before it counts as a hang
     let mut out = Vec::new();
@@ -96,7 +105,12 @@ fn run_batch(ctx: &mut Ctx, what: &str, reqs: &[Req], timeout_s: u64) -> Vec<Opt
         let rep2;
         let rep = if matches!(rep, Reply::TimedOut) {
             ctx.count("watchdog-retries");
-            rep2 = hostile::run_requests(&exe(), stack_bytes(), std::slice::from_ref(r), timeout_s * 2).pop().unwrap_or(Reply::NotRun);
+            // alone, 60 s (120 s for inputs beyond 1 MiB): far above anything a linear-time decoder needs
+            let alone = if r.bytes().len() > (1 << 20) { 120 } else { 60 };
+            rep2 = if HANGS.load(std::sync::atomic::Ordering::Relaxed) >= MAX_HANGS { Reply::NotRun } else { hostile::run_requests(&exe(), stack_bytes(), std::slice::from_ref(r), alone.min(timeout_s * 2)).pop().unwrap_or(Reply::NotRun) };
+            if matches!(rep2, Reply::TimedOut) {
+                HANGS.fetch_add(1, std::sync::atomic::Ordering::Relaxed);
+            }
             &rep2
         } else {
             rep
